@@ -118,7 +118,15 @@ def rule_pattern_base_sibling(ctx, rep):
         relative = a is not None and any(isinstance(x, ast.Call) and last_attr(x.func) == "relative_to" for x in ast.walk(a))
         if root is not None and not relative:
             relative = any(isinstance(x, ast.Call) and last_attr(x.func) == "relative_to" for x in ast.walk(root))
-        rep.check("R-PATTERN-BASE-SIBLING", pf.qname, pf.loc(c), relative or handles_relative_inside, f"file_line_patterns({unparse(a) if a is not None else ''})",
+        inside_ok = False
+        if handles_relative_inside:
+            # the callee relativises against one of its parameters: the call must actually pass it
+            rel_params = {
+                nm.id for x in walk_no_nested(flp.node) if isinstance(x, ast.Call) and last_attr(x.func) == "relative_to" for arg in x.args for nm in ast.walk(arg) if isinstance(nm, ast.Name)
+            } & set(flp.params())
+            b = bind_args(c, flp, False)
+            inside_ok = any(p in b and not (isinstance(b[p], ast.Constant) and b[p].value is None) for p in rel_params)
+        rep.check("R-PATTERN-BASE-SIBLING", pf.qname, pf.loc(c), relative or inside_ok, f"file_line_patterns({unparse(a) if a is not None else ''})",
                   f"line patterns are matched against `{unparse(a) if a is not None else '?'}` (the directory-prefixed path) while file patterns are "
                   "matched against the target-relative path: `--path-exclude 'a.py:3'` is silently ignored although `a.py` excludes the file")
 
